@@ -280,10 +280,17 @@ func genBatch(t *rapid.T) batchCase {
 	if rapid.IntRange(0, 9).Draw(t, "many") == 0 {
 		n = rapid.IntRange(30, 60).Draw(t, "nfields_many")
 	}
+	veryMany := rapid.IntRange(0, 19).Draw(t, "very_many") == 0
 	nServers := rapid.IntRange(1, 4).Draw(t, "nservers")
 	nUnits := rapid.IntRange(1, 3).Draw(t, "nunits")
 	invalidRate := rapid.SampledFrom([]int{0, 0, 0, 20}).Draw(t, "invalid_rate")
 	colliding := rapid.IntRange(0, 5).Draw(t, "colliding_names") == 0
+	if veryMany {
+		// hundreds of fields of one target at (mostly) distinct addresses, many of them revisited later: far more slots per group
+		// than any size-dependent shortcut (a lazily built index, a fixed-size table) tolerates
+		n = rapid.IntRange(150, 420).Draw(t, "nfields_very_many")
+		nServers, nUnits, invalidRate, colliding = 1, 1, 0, false
+	}
 	bases := []int{0, 1, 65535, 65536 - limit, 65536 - limit - 1, 30000}
 	base := rapid.SampledFrom(bases).Draw(t, "base")
 	for i := 0; i < n; i++ {
@@ -310,7 +317,17 @@ func genBatch(t *rapid.T) batchCase {
 		}
 		// address: cluster offsets around the limit
 		var off int
-		switch rapid.IntRange(0, 4).Draw(t, "offmode") {
+		mode := rapid.IntRange(0, 4).Draw(t, "offmode")
+		if veryMany {
+			mode = 5
+		}
+		switch mode {
+		case 5:
+			// walk through distinct addresses (stride 3, so multi-register fields overlap a little), revisiting earlier ones now and then
+			off = 3 * i
+			if i > 130 && rapid.IntRange(0, 3).Draw(t, "revisit") == 0 {
+				off = 3 * rapid.IntRange(1, 129).Draw(t, "revisit_i")
+			}
 		case 0:
 			off = rapid.SampledFrom([]int{0, 1, 2, limit - 4, limit - 3, limit - 2, limit - 1, limit, limit + 1, limit + 2, 2 * limit, 2*limit + 1}).Draw(t, "off_hot")
 		case 1:
